@@ -325,6 +325,9 @@ pub struct ReplayFile {
     pub applies_to: Vec<String>,
     #[serde(default, skip_serializing_if = "Option::is_none")]
     pub what: Option<String>,
+    /// regression scenarios only: CPU-time budget for this scenario (default 180 s)
+    #[serde(default, skip_serializing_if = "Option::is_none")]
+    pub cpu_limit_secs: Option<u64>,
 }
 
 impl ReplayFile {
@@ -336,6 +339,7 @@ impl ReplayFile {
             expect: None,
             applies_to: vec![],
             what: None,
+            cpu_limit_secs: None,
         }
     }
 }
